@@ -898,6 +898,13 @@ class Interp:
                     if isinstance(rv, Cmp):
                         rv = Cmp(rv.op, None, None, rv.res)     # operands are locals of this frame
                     rv = self._materialise_refs(rv, st)
+                    w = getattr(self, 'watch', None)
+                    if w and self.depth == 0 and b.path == w[0] and w[1] in st:
+                        # the value a local of the entry body holds when it returns (the candidate table of a solver, for the rule layer)
+                        try:
+                            self.watched = self._materialise_refs(st[w[1]], st)
+                        except (Unsupported, Undecided):
+                            self.watched = None
                     results.append(Outcome(rv, st['#cells'], None, forked, bool(st.get('#cmpfork'))))
                     break
                 if k == 'unreachable':
@@ -1787,16 +1794,12 @@ def h_iter_copied(I, st, a, t, b):
 
 
 def h_array_map(I, st, a, t, b):
-    return tuple(_call_f(I, st, a[1], [x]) for x in _items_of(I, st, a[0]))
+    # a mapped function may fork (a draw split into sub-ranges): every combination, as for array::from_fn
+    return _product_of_alternatives([_call_f(I, st, a[1], [x], multi=True) for x in _items_of(I, st, a[0])], 'array::map function')
 
 
-def h_array_from_fn(I, st, a, t, b):
-    import re as _re
-    m = _re.search(r'; (\d+)\]', b.local_ty(t['dest']['local']))
-    if not m:
-        raise Unsupported('array::from_fn of unknown length')
+def _product_of_alternatives(per, what):
     import itertools as _it
-    per = [_call_f(I, st, a[0], [i], multi=True) for i in range(int(m.group(1)))]
     n = 1
     for x in per:
         n *= len(x)
@@ -1808,7 +1811,7 @@ def h_array_from_fn(I, st, a, t, b):
                 return Iv(min(v.lo for v in vs), max(v.hi for v in vs), any(v.nan for v in vs))
             if all(v == vs[0] for v in vs):
                 return vs[0]
-            raise Undecided('array::from_fn generator forks too often')
+            raise Undecided('%s forks too often' % what)
         hull = [join(x) for x in per]
         alts = []
         for i, x in enumerate(per):
@@ -1818,6 +1821,14 @@ def h_array_from_fn(I, st, a, t, b):
         return Fork(alts)
     alts = [tuple(c) for c in _it.product(*per)]
     return alts[0] if len(alts) == 1 else Fork(alts)
+
+
+def h_array_from_fn(I, st, a, t, b):
+    import re as _re
+    m = _re.search(r'; (\d+)\]', b.local_ty(t['dest']['local']))
+    if not m:
+        raise Unsupported('array::from_fn of unknown length')
+    return _product_of_alternatives([_call_f(I, st, a[0], [i], multi=True) for i in range(int(m.group(1)))], 'array::from_fn generator')
 
 
 BUILTINS.update({
